@@ -256,6 +256,14 @@ def dump_module(modname):
 
 # ------------------------------------------------------------------ value recipes
 def find_class(modname, flatname, kinds=("message", "enum")):
+    ck = (modname, flatname, kinds)
+    if ck in _FOUND:
+        return _FOUND[ck]
+    _FOUND[ck] = c = _find_class(modname, flatname, kinds)
+    return c
+
+
+def _find_class(modname, flatname, kinds=("message", "enum")):
     mod = MODULES.get(modname) or importlib.import_module(modname)
     hits = [o for n, o in vars(mod).items()
             if isinstance(o, type) and o.__module__ == modname and norm(n) == norm(flatname)
@@ -346,6 +354,10 @@ def do_encode(results):
 
 
 # ------------------------------------------------------------------ C13 reference checks
+_HINTS = {}
+_FOUND = {}
+
+
 def do_refs(results):
     """spec['refs']: list of {key, src_module, holder, number, site, dst_module, dst_flat, dst_kind}
     checks identity of the resolved class with the class the target module exposes."""
@@ -363,7 +375,9 @@ def do_refs(results):
             bp = holder._betterproto
             name = bp.field_name_by_number[r["number"]]
             meta = bp.meta_by_field_name[name]
-            hint = holder._type_hints()[name]
+            if holder not in _HINTS:
+                _HINTS[holder] = holder._type_hints()
+            hint = _HINTS[holder][name]
             leaves = [a for a in _leaves(hint) if a not in (int, str, type(None))]
             res["hint_leaf"] = [("%s.%s" % (x.__module__, x.__qualname__)) if isinstance(x, type) else repr(x) for x in leaves]
             problems = []
